@@ -159,6 +159,12 @@ def prop(case, ctx):
     base = int(ffi.cast('uintptr_t', backing))
     start = base + ((case['amod'] - base) % 16)
     ffi.buffer(backing)[start - base:start - base + len(raw)] = raw
+    # the memory just behind the requested items continues the pattern (it is not zero): what unpack(p, n)
+    # returns must not depend on it (e.g. a surrogate pair cut in two by n)
+    beyond = b''.join((elems[i % len(elems)] & mask).to_bytes(size, 'little') for i in range(n, n + 2))
+    room = len(ffi.buffer(backing)) - (start - base + len(raw))
+    beyond = beyond[:max(0, min(len(beyond), room))]
+    ffi.buffer(backing)[start - base + len(raw):start - base + len(raw) + len(beyond)] = beyond
     p = ffi.cast(inf['ptr'], start)
     view = case['view']
     if view == 'array':
